@@ -470,11 +470,18 @@ class LocalScheduleInterpreter(OneShotTask):
             if _debug: LocalScheduleInterpreter._debug("    - current_time: %r", current_time)
 
         # evaluate the time
-        current_value, next_transition = self.eval(current_date, current_time)
-        if _debug: LocalScheduleInterpreter._debug("    - current_value, next_transition: %r, %r", current_value, next_transition)
+        evaluation = self.eval(current_date, current_time)
+        if evaluation is None:
+            # not in the effective period, leave the present value alone and
+            # look again at the start of the next day
+            if _debug: LocalScheduleInterpreter._debug("    - not in the effective period")
+            next_transition = (24, 0, 0, 0)
+        else:
+            current_value, next_transition = evaluation
+            if _debug: LocalScheduleInterpreter._debug("    - current_value, next_transition: %r, %r", current_value, next_transition)
 
-        ### set the present value
-        self.sched_obj.presentValue = current_value
+            ### set the present value
+            self.sched_obj.presentValue = current_value
 
         # compute the time of the next transition
         transition_time = datetime_to_time(current_date, next_transition)
